@@ -259,7 +259,7 @@ struct Conn {
     int id = 0;
     // what the script delivered on this connection (for the oracles; independent of the model)
     int delivered = 0;
-    bool firstIsHeader = false, sawVersionlessHeader = false, sawIqRequest = false, sawCsiFeature = false, csiSent = false, sawForeignIq = false, sawSmR = false;
+    bool firstIsHeader = false, sawVersionlessHeader = false, sawIqRequest = false, sawCsiFeature = false, csiSent = false, sawForeignIq = false, sawSmR = false, sawPartial = false;
     QByteArray scramServerFirst;   // last SCRAM server-first message sent on this connection
 };
 
@@ -626,6 +626,7 @@ struct Runner {
             if (op == "iqget" || op == "iqset") k->sawIqRequest = true;
             if (op == "xel" && t.value(2).startsWith("iqget")) k->sawForeignIq = true;
             if (op == "smr") k->sawSmR = true;
+            if (op == "partial" || (op == "seg" && opStr.find("partial") != std::string::npos)) k->sawPartial = true;   // the rest of this connection is not well-formed XML
             if (op == "seg") {
                 const QString rest = QString::fromStdString(opStr);
                 if (rest.contains(" iqget ") || rest.contains(" iqset")) k->sawIqRequest = true;
@@ -1475,7 +1476,7 @@ struct TlsUnavailableCheck {
     void before(Session &s, const std::string &op)
     {
         c = s.r.w.conn();
-        armed = s.cfg.tls == 2 && op.rfind("feat t0", 0) == 0 && c && !c->closed && !c->tlsDone && !c->tlsStarted && c->firstIsHeader && c->delivered >= 1;
+        armed = s.cfg.tls == 2 && op.rfind("feat t0", 0) == 0 && c && !c->closed && !c->tlsDone && !c->tlsStarted && c->firstIsHeader && c->delivered >= 1 && !c->sawPartial;
     }
     void after(Session &s)
     {
